@@ -174,6 +174,23 @@ class LegacyVarX2(LegacyVarX):
     mapper_method = "map_legacy_var_x2"
 
 
+class PureLegacyList(Expression):
+    """legacy node that keeps one init arg as a list (and therefore brings its own hash)"""
+    init_arg_names = ("tag", "items")
+
+    def __init__(self, tag, items):
+        self.tag = tag
+        self.items = list(items)
+
+    def __getinitargs__(self):
+        return (self.tag, self.items)
+
+    def get_hash(self):
+        return hash((type(self).__name__, self.tag, tuple(self.items)))
+
+    mapper_method = "map_pure_legacy_list"
+
+
 class PureLegacy(Expression):
     """legacy subclass that still uses the init-args protocol"""
     init_arg_names = ("u", "v")
@@ -193,11 +210,12 @@ USER_CLASSES = {"UTag": UTag, "UTag3": UTag3, "UNamed": UNamed, "UHashless": UHa
                 "UHashInherit": UHashInherit, "UInterval": UInterval,
                 "UDerivedMid": UDerivedMid, "UCse": UCse, "SubCse": SubCse, "UShift": UShift,
                 "LegacyVar": LegacyVar,
-                "LegacyVarX": LegacyVarX, "LegacyVarX2": LegacyVarX2, "PureLegacy": PureLegacy}
+                "LegacyVarX": LegacyVarX, "LegacyVarX2": LegacyVarX2, "PureLegacy": PureLegacy,
+                "PureLegacyList": PureLegacyList}
 USER_FIELDS = {"UTag": ["e", "s"], "UTag3": ["e", "s", "any"], "UNamed": ["s", "ci"],
                "UHashless": ["s", "any"], "UDerived": ["e"], "SubVariable": ["s"],
                "SubCall": ["e", "E0"], "UHashInherit": ["s", "s"],
                "UInterval": ["e", "any"], "UDerivedMid": ["e", "any"],
                "UCse": ["e", "px", "sc", "s"], "SubCse": ["e", "px", "sc"], "UShift": ["e", "ci"],
                "LegacyVar": ["s"], "LegacyVarX": ["s", "any"], "LegacyVarX2": ["s", "any"],
-               "PureLegacy": ["any", "any"]}
+               "PureLegacy": ["any", "any"], "PureLegacyList": ["s", "E0"]}
